@@ -6,7 +6,7 @@ import os
 import random
 import time
 
-from framework import gen, minimize, modelrun
+from framework import gen, minimize, modelrun, progress
 from framework import oracles as O
 from framework.common import case_hash
 
@@ -87,6 +87,29 @@ def judge_opt(model, cfg, var, direction, expected, out):
     return fails
 
 
+def stats_laws(st, cfg, complete, delivered):
+    """Conservation laws of C17 checkable at the API boundary in both modes. Returns a message or None."""
+    bc, bcs, sh, shc, shn, ent, flt, noch, inc, bt, ch, depth, sol = st
+    if min(st) < 0:
+        return "negative counter %r" % (st,)
+    if inc + noch > flt or inc + ent > flt:
+        return "filter=%d < inconsistency=%d + max(no_change=%d, entailment=%d)" % (flt, inc, noch, ent)
+    if shc + shn != sh:
+        return "shaving attempts %d != successes %d + failures %d" % (sh, shc, shn)
+    if sol != delivered and complete:
+        return "solutions counted %d != delivered %d" % (sol, delivered)
+    if depth > ch:
+        return "depth %d > choices %d" % (depth, ch) if cfg.get("dh") not in ("mid", "min_cost") else None
+    if complete and cfg.get("calg") == "bc":
+        if cfg.get("dh") in ("min", "max", "split_low") and bt != ch:
+            return "exhaustive BC enumeration: backtracks %d != choices %d" % (bt, ch)
+        if cfg.get("dh") in ("mid", "min_cost") and not (ch <= bt <= 2 * ch):
+            return "exhaustive BC enumeration: backtracks %d not in [choices, 2*choices] = [%d, %d]" % (bt, ch, 2 * ch)
+        if bc != 1 + ch + bt:
+            return "exhaustive BC enumeration: passes %d != 1 + choices %d + backtracks %d" % (bc, ch, bt)
+    return None
+
+
 # ------------------------------------------------------------------------------------------------- the worker
 def _mon_spec(task, cache):
     spec = {}
@@ -146,11 +169,17 @@ def run_models(task):
                 w.update(extra)
             res["fails"].append(w)
 
+    res["task"] = {k: v for k, v in task.items() if k not in ("props",)}
     for it in range(task["count"]):
         if time.time() > deadline:
             res["truncated"] = True
             break
-        model, tags = gen.gen_model(rnd, gopts)
+        progress.flush(res)
+        fixed = task.get("fixed_models") or []
+        if it < len(fixed):
+            model, tags = fixed[it], ["fixed_witness_model"]
+        else:
+            model, tags = gen.gen_model(rnd, gopts)
         if O.model_points(model) > max_points:
             res["skipped_too_large"] += 1
             continue
@@ -171,41 +200,71 @@ def run_models(task):
                 if expected is None:
                     expected = O.brute(model)
                 if "enum" in task.get("do", ["enum"]):
-                    spec = _mon_spec(task, hull_cache)
-                    out = modelrun.run_enum(mv, cfg, spec, max_solutions=max(200, 3 * len(expected) + 50))
-                    res["evals"] += 1
-                    res["solutions_checked"] += len(out.solutions)
-                    fails = judge_enum(mv, cfg, expected, out)
-                    h = case_hash([mv, cfg, "enum"])
-                    res["hashes"].append(h)
-                    nontriv = out.stats is not None and out.stats[10] >= 1
-                    if nontriv:
-                        res["nontrivial"].append(h)
-                    for k2, v2 in out.monitor_counts.items():
-                        if isinstance(v2, (int, float)):
-                            if k2.endswith("max_execs_in_one_pass") or k2.endswith("max_lines_in_one_call") or \
-                                    k2.endswith("limit"):
-                                res["counters"][k2] = max(res["counters"].get(k2, 0), v2)
-                            else:
-                                cnt(k2, v2)
-                    cnt("cfg.%s/%s/%s" % (cfg["calg"], cfg["vh"], cfg["dh"]))
-                    cnt("runs_with_%d_solutions" % min(len(expected), 3) if len(expected) < 3 else
-                        "runs_with_3plus_solutions")
-                    if out.stats:
-                        cnt("engine.choices", out.stats[10])
-                        cnt("engine.backtracks", out.stats[9])
-                        cnt("engine.filters", out.stats[6])
-                    if len(res["samples"]) < 4 and nontriv and res["evals"] % 37 == 1:
-                        res["samples"].append({"model": mv, "cfg": cfg, "solutions": len(out.solutions),
-                                               "expected": len(expected), "stats": out.stats})
-                    if fails:
-                        _report(fails, mv, cfg, expected, task, want, add_fail, tags, ("enum",))
+                    runs = [("plain", None, None)]
+                    if INTERP:
+                        for k in range(task.get("schedules", 0)):
+                            runs.append(("schedule%d" % k, {"schedule": {"seed": task["seed"] * 1000 + it * 10 + k}},
+                                         "C08"))
+                        if task.get("downgrade"):
+                            runs.append(("downgrade", {"flags": {"downgrade": True}}, "C07"))
+                    for rname, extra_spec, relabel in runs:
+                        spec = _mon_spec(task, hull_cache)
+                        if spec is not None and "shaving" in spec:
+                            spec["shaving"]["solutions"] = expected
+                        if extra_spec:
+                            spec = dict(spec or {})
+                            spec.update(extra_spec)
+                            if rname == "downgrade":
+                                spec.pop("stats", None)  # the engine is handed altered statuses on purpose
+                        progress.mark({"model": mv, "cfg": cfg, "what": ["enum"], "run": rname})
+                        out = modelrun.run_enum(mv, cfg, spec, max_solutions=max(200, 3 * len(expected) + 50))
+                        res["evals"] += 1
+                        res["solutions_checked"] += len(out.solutions)
+                        fails = judge_enum(mv, cfg, expected, out)
+                        if relabel:
+                            fails = [dict(f, prop=relabel, kind="%s_under_%s" % (f["kind"], rname.rstrip("0123456789")))
+                                     if f["prop"] in ("C02", "C04") else f for f in fails]
+                        h = case_hash([mv, cfg, "enum", rname])
+                        res["hashes"].append(h)
+                        nontriv = out.stats is not None and out.stats[10] >= 1
+                        if task.get("nontrivial") == "shared_var_3exec":
+                            nontriv = out.monitor_counts.get("fixpoint.passes_with_3plus_executions", 0) >= 1
+                        elif task.get("nontrivial") == "shaving_probe":
+                            nontriv = out.monitor_counts.get("shaving.probes", 0) >= 1
+                        elif task.get("nontrivial") == "entailment":
+                            nontriv = out.monitor_counts.get("flags.flags_cleared", 0) >= 1 and out.stats[9] >= 1
+                        if nontriv:
+                            res["nontrivial"].append(h)
+                        for k2, v2 in out.monitor_counts.items():
+                            if isinstance(v2, (int, float)):
+                                if "max_" in k2 or k2.endswith("limit"):
+                                    res["counters"][k2] = max(res["counters"].get(k2, 0), v2)
+                                else:
+                                    cnt(k2, v2)
+                        cnt("cfg.%s/%s/%s" % (cfg["calg"], cfg["vh"], cfg["dh"]))
+                        cnt("runs_%s" % rname.rstrip("0123456789"))
+                        cnt("runs_with_%d_solutions" % len(expected) if len(expected) < 3 else
+                            "runs_with_3plus_solutions")
+                        if out.stats:
+                            cnt("engine.choices", out.stats[10])
+                            cnt("engine.backtracks", out.stats[9])
+                            cnt("engine.filters", out.stats[6])
+                            law = stats_laws(out.stats, cfg, out.error is None, len(out.solutions))
+                            if law:
+                                fails.append({"prop": "C17", "kind": "conservation_law", "detail": law})
+                            cnt("law_checks")
+                        if len(res["samples"]) < 4 and nontriv and res["evals"] % 37 == 1:
+                            res["samples"].append({"model": mv, "cfg": cfg, "solutions": len(out.solutions),
+                                                   "expected": len(expected), "stats": out.stats, "run": rname})
+                        if fails:
+                            _report(fails, mv, cfg, expected, task, want, add_fail, tags, ("enum",), rname)
                 if "opt" in task.get("do", ["enum"]):
                     nv = len(model["idx"])
                     for _ in range(task.get("objectives_per_model", 2)):
                         var = rnd.randrange(nv)
                         direction = rnd.choice(["min", "max"])
                         spec = _mon_spec(task, hull_cache)
+                        progress.mark({"model": mv, "cfg": cfg, "what": ["opt", var, direction]})
                         out = modelrun.run_opt(mv, cfg, var, direction, spec)
                         res["evals"] += 1
                         fails = judge_opt(mv, cfg, var, direction, expected, out)
@@ -232,19 +291,21 @@ def run_models(task):
     return res
 
 
-def _report(fails, model, cfg, expected, task, want, add_fail, tags, what):
+def _report(fails, model, cfg, expected, task, want, add_fail, tags, what, rname="plain"):
     """Minimises the first failure of each wanted property, then records it."""
     done = set()
     for f in fails:
         if f["prop"] not in want or f["prop"] in done:
             continue
         done.add(f["prop"])
-        if "call" in f or not task.get("minimize", True):
-            add_fail(f, model, cfg, {"tags": tags, "what": list(what)})
+        if "call" in f or not task.get("minimize", True) or rname != "plain" or f["prop"] not in (
+                "C01", "C02", "C03", "C04", "C16"):
+            add_fail(f, model, cfg, {"tags": tags, "what": list(what), "run": rname})
             continue
         prop, kindroot = f["prop"], f["kind"].split(":")[0].split("+")[0]
 
         def still(m2, c2, prop=prop, kindroot=kindroot):
+            progress.touch()
             if O.model_points(m2) > task.get("max_points", 20000):
                 return False
             exp2 = O.brute(m2)
@@ -299,3 +360,18 @@ def replay_model(task):
         out = modelrun.run_opt(model, cfg, what[1], what[2], spec)
         fails = judge_opt(model, cfg, what[1], what[2], expected, out)
     return {"fails": [f for f in fails if f["prop"] == task["prop"]], "outcome": out.as_dict()}
+
+
+def replay_case(task):
+    """Re-executes one case {model, cfg, what} (stall resolution): all failures, any property."""
+    c = task["case"]
+    model, cfg, what = c["model"], c["cfg"], c.get("what", ["enum"])
+    expected = O.brute(model) if O.model_points(model) <= 300000 else []
+    spec = {"budget": {"scale": task.get("scale", 1)}} if INTERP else None
+    if what[0] == "enum":
+        out = modelrun.run_enum(model, cfg, spec, max_solutions=max(200, 3 * len(expected) + 50))
+        fails = judge_enum(model, cfg, expected, out)
+    else:
+        out = modelrun.run_opt(model, cfg, what[1], what[2], spec)
+        fails = judge_opt(model, cfg, what[1], what[2], expected, out)
+    return {"fails": fails, "outcome": out.as_dict(), "mode": MODE}
